@@ -9,7 +9,7 @@
     [le], [lt] are the order of [Ops]; [canon x j] says xs[j] <= x < xs[j+1], or j = N-2 and
     x <= xs[N-1]; [seg x j] says xs[j] <= x <= xs[j+1]. *)
 From Coq Require Import ZArith List.
-From LP Require Import Num OrdLaws C09_Model C09_Proofs C09_Proofs_Ctor C09_Proofs_Session C09_Proofs_Table C09_Proofs_Save.
+From LP Require Import Num OrdLaws C09_Model C09_Proofs C09_Proofs_Ctor C09_Proofs_Session C09_Proofs_Table C09_Proofs_Save C09_Proofs_Integ.
 Import ListNotations.
 Local Open Scope Z_scope.
 
@@ -541,3 +541,54 @@ Theorem C09_continuation_history_free_2d :
     trace2 Ops Nx xv Ny yv fv rest (mkState2 (init Ops) (init Ops) (prefactor2_after Ops h (n1 Ops))).
 Proof. exact @continuation_free2. Qed.
 Print Assumptions C09_continuation_history_free_2d.
+
+(** "After any sequence of ... integrals ..., each further query returns what a freshly constructed object returns":
+    Integrate made explicit.  After ANY history, Integrate(x_1, x_2) with both limits in the domain locates THE segments
+    of the ordered limits (int_lo / int_hi: the smaller / larger limit; int_sign: -1 when x_1 > x_2, else 1) and returns
+    the sign times the value of the summation loop for those two segments, the ordered limits and the prefactor that the
+    Set_Prefactor / Multiply calls of the history alone determine — nothing else of the history enters. *)
+Theorem C09_integrate_after_history :
+  forall (T : Type) (Ops : NumOps T), OrdLaws Ops -> forall (N : Z) (xv : Z -> T),
+  increasing Ops N xv -> size_ok N ->
+  forall (E : evals T) (h : list (op T)) (x1 x2 : T),
+    nisnan Ops x1 = false -> nisnan Ops x2 = false -> in_domain Ops N xv x1 -> in_domain Ops N xv x2 ->
+    exists i1 i2, snd (stepE Ops N xv E (runE Ops N xv E h (init Ops)) (OpIntegrate x1 x2)) =
+                    OValue [i1; i2] (nmul Ops (int_sign Ops x1 x2)
+                       (ev_integ E i1 i2 (int_lo Ops x1 x2) (int_hi Ops x1 x2) (prefactor_after Ops h (n1 Ops)))) /\
+                  canon Ops N xv (int_lo Ops x1 x2) i1 /\ canon Ops N xv (int_hi Ops x1 x2) i2.
+Proof. intros T Ops OL N xv Hi Hn E. exact (integrate_after_history Ops OL N xv Hi Hn _ _ _ _ _). Qed.
+Print Assumptions C09_integrate_after_history.
+
+(** The order of the limits: for a < b in the domain, Integrate(a, b) after any history h and Integrate(b, a) after any
+    history h' with the same prefactor calls (in particular: later on the same object, the first request being part of
+    h') locate the same two segments and return 1 * v and (-1) * v for the SAME loop value v: a value computed for one
+    order of the limits is never handed out for the other order, whatever was asked in between (whole-domain ranges,
+    limits bit-equal to the domain ends, included). *)
+Theorem C09_integrate_reversed_after_history :
+  forall (T : Type) (Ops : NumOps T), OrdLaws Ops -> forall (N : Z) (xv : Z -> T),
+  increasing Ops N xv -> size_ok N ->
+  forall (E : evals T) (h h' : list (op T)) (a b : T),
+    nisnan Ops a = false -> nisnan Ops b = false -> in_domain Ops N xv a -> in_domain Ops N xv b ->
+    nltb Ops a b = true -> prefactor_after Ops h (n1 Ops) = prefactor_after Ops h' (n1 Ops) ->
+    exists i1 i2 v,
+      snd (stepE Ops N xv E (runE Ops N xv E h (init Ops)) (OpIntegrate a b)) = OValue [i1; i2] (nmul Ops (n1 Ops) v) /\
+      snd (stepE Ops N xv E (runE Ops N xv E h' (init Ops)) (OpIntegrate b a)) = OValue [i1; i2] (nmul Ops (nneg Ops (n1 Ops)) v) /\
+      v = ev_integ E i1 i2 a b (prefactor_after Ops h (n1 Ops)) /\ canon Ops N xv a i1 /\ canon Ops N xv b i2.
+Proof. intros T Ops OL N xv Hi Hn E. exact (integrate_reversed_after_history Ops OL N xv Hi Hn _ _ _ _ _). Qed.
+Print Assumptions C09_integrate_reversed_after_history.
+
+(** Interpolation_2D::Interpolate made explicit ("1D or 2D"): after ANY history of Interpolate(x,y) / Set_Prefactor /
+    Multiply / Global_* / copies, Interpolate(x, y) with both arguments in the domain returns the prefactor of the history
+    (Set_Prefactor / Multiply calls alone) times the bilinear expression [bilinear_cell] evaluated on THE cell of (x, y) —
+    i is THE segment of x, j THE segment of y — never on a cell remembered from an earlier call or from the constructor. *)
+Theorem C09_interpolate_2d_after_history :
+  forall (T : Type) (Ops : NumOps T), OrdLaws Ops ->
+  forall (Nx : Z) (xv : Z -> T) (Ny : Z) (yv : Z -> T) (fv : Z -> Z -> T),
+  increasing Ops Nx xv -> increasing Ops Ny yv -> size_ok Nx -> size_ok Ny ->
+  forall (h : list (op2 T)) (x y : T),
+    nisnan Ops x = false -> nisnan Ops y = false -> in_domain Ops Nx xv x -> in_domain Ops Ny yv y ->
+    exists i j, snd (step2 Ops Nx xv Ny yv fv (run2 Ops Nx xv Ny yv fv h (init2 Ops)) (Op2Interpolate x y)) =
+                  O2Value i j (nmul Ops (prefactor2_after Ops h (n1 Ops)) (bilinear_cell Ops xv yv fv i j x y)) /\
+                canon Ops Nx xv x i /\ canon Ops Ny yv y j.
+Proof. exact @interpolate2_after_history. Qed.
+Print Assumptions C09_interpolate_2d_after_history.
